@@ -13,6 +13,8 @@ import (
 	"strings"
 	"time"
 
+	"github.com/gorilla/websocket"
+
 	"github.com/99designs/gqlgen/graphql"
 	"github.com/99designs/gqlgen/graphql/handler"
 	"github.com/99designs/gqlgen/graphql/handler/transport"
@@ -24,6 +26,10 @@ type HTTPCase struct {
 	Transport       string `json:"transport"`                 // post | get | sse | multipart
 	DisconnectAfter int    `json:"disconnectAfter,omitempty"` // >0: drop the connection after reading this many bytes
 	Bare            bool   `json:"bare,omitempty"`            // omit empty keys from the request body
+	// websocket only: after this many `next` messages the client ends the operation itself
+	// ("complete": sends a complete message for the id; "drop": closes the TCP connection without a close frame)
+	ClientEnds string `json:"clientEnds,omitempty"`
+	AfterNext  int    `json:"afterNext,omitempty"`
 }
 
 type HTTPResult struct {
@@ -41,6 +47,9 @@ type HTTPResult struct {
 
 // RunHTTP serves one case and reports what is still running after the request ended.
 func RunHTTP(es graphql.ExecutableSchema, c HTTPCase) HTTPResult {
+	if c.Transport == "ws" {
+		return RunWS(es, c)
+	}
 	st := &State{Plan: c.Plan, Schema: es.Schema(), CancelAt: int64(c.CancelAt)}
 	srv := handler.New(es)
 	srv.AddTransport(transport.SSE{})
@@ -129,6 +138,120 @@ func RunHTTP(es graphql.ExecutableSchema, c HTTPCase) HTTPResult {
 	ts.CloseClientConnections()
 	// Close blocks until outstanding requests have completed: a handler that never returns must not
 	// hang the harness, it is reported as hung
+	closed := make(chan struct{})
+	go func() { ts.Close(); close(closed) }()
+	select {
+	case <-closed:
+	case <-time.After(1500 * time.Millisecond):
+		res.Hung = true
+	}
+	deadline := time.Now().Add(500 * time.Millisecond)
+	for {
+		res.Leaked = newGoroutines(before, gqlgenGoroutines())
+		if len(res.Leaked) == 0 || time.Now().After(deadline) {
+			break
+		}
+		time.Sleep(5 * time.Millisecond)
+	}
+	st.mu.Lock()
+	res.Log = len(st.Log)
+	res.Recovers = st.Recov
+	st.mu.Unlock()
+	return res
+}
+
+// RunWS runs one operation over the graphql-transport-ws websocket transport of the real handler.Server
+// (a query or a query with @defer is a legal `subscribe` payload: every payload is a `next`, then `complete`).
+func RunWS(es graphql.ExecutableSchema, c HTTPCase) HTTPResult {
+	st := &State{Plan: c.Plan, Schema: es.Schema(), CancelAt: int64(c.CancelAt)}
+	srv := handler.New(es)
+	srv.AddTransport(transport.Websocket{})
+	srv.SetRecoverFunc(func(ctx context.Context, err any) error {
+		st.mu.Lock()
+		st.Recov++
+		st.mu.Unlock()
+		return fmt.Errorf("recovered: %v", err)
+	})
+	before := gqlgenGoroutines()
+	ts := httptest.NewServer(http.HandlerFunc(func(w http.ResponseWriter, r *http.Request) {
+		ctx, cancel := context.WithCancel(r.Context())
+		defer cancel()
+		st.Cancel = cancel
+		srv.ServeHTTP(w, r.WithContext(WithState(ctx, st)))
+	}))
+	res := HTTPResult{ID: c.ID, Transport: c.Transport}
+	to := time.Duration(c.TimeoutMs) * time.Millisecond
+	if to == 0 {
+		to = 5 * time.Second
+	}
+	done := make(chan struct{})
+	go func() {
+		defer close(done)
+		d := websocket.Dialer{Subprotocols: []string{"graphql-transport-ws"}, HandshakeTimeout: to}
+		conn, resp, err := d.Dial("ws"+strings.TrimPrefix(ts.URL, "http")+"/", nil)
+		if err != nil {
+			res.Body = "dial: " + err.Error()
+			return
+		}
+		res.Status = resp.StatusCode
+		defer conn.Close()
+		conn.SetReadDeadline(time.Now().Add(to))
+		conn.WriteJSON(map[string]any{"type": "connection_init"})
+		var ack map[string]any
+		if err := conn.ReadJSON(&ack); err != nil || ack["type"] != "connection_ack" {
+			res.Body = fmt.Sprintf("no ack: %v %v", ack, err)
+			return
+		}
+		conn.WriteJSON(map[string]any{"id": "1", "type": "subscribe",
+			"payload": map[string]any{"query": c.Query, "variables": c.Variables, "operationName": c.OperationName}})
+		var out []string
+		nexts := 0
+		for {
+			var m map[string]json.RawMessage
+			if err := conn.ReadJSON(&m); err != nil {
+				// the server closed (cancellation) or the deadline passed
+				if ne, ok := err.(interface{ Timeout() bool }); ok && ne.Timeout() {
+					res.Hung = true
+				}
+				res.Dropped = true
+				break
+			}
+			var typ string
+			json.Unmarshal(m["type"], &typ)
+			out = append(out, typ+":"+string(m["payload"]))
+			if typ == "complete" || typ == "error" {
+				break
+			}
+			if typ == "next" {
+				nexts++
+				if c.ClientEnds != "" && nexts >= c.AfterNext {
+					if c.ClientEnds == "complete" {
+						conn.WriteJSON(map[string]any{"id": "1", "type": "complete"})
+						// the server may still have sent frames; an orderly close follows
+						conn.WriteMessage(websocket.CloseMessage, websocket.FormatCloseMessage(websocket.CloseNormalClosure, ""))
+					} else {
+						conn.UnderlyingConn().Close()
+					}
+					res.Dropped = true
+					break
+				}
+			}
+		}
+		b := strings.Join(out, "\n")
+		res.BodyLen = len(b)
+		if len(b) < 4000 {
+			res.Body = b
+		}
+		if !res.Dropped {
+			conn.WriteMessage(websocket.CloseMessage, websocket.FormatCloseMessage(websocket.CloseNormalClosure, ""))
+		}
+	}()
+	select {
+	case <-done:
+	case <-time.After(to + time.Second):
+		res.Hung = true
+	}
+	ts.CloseClientConnections()
 	closed := make(chan struct{})
 	go func() { ts.Close(); close(closed) }()
 	select {
